@@ -224,7 +224,9 @@ def kwNonNull (kw : List (String × J)) : Bool :=
   kw.any fun kv => match kv.2 with | .null => false | _ => true
 
 mutual
-  /-- F2 trigger: a field at depth >= 3 (top-level field = depth 1; members of `.on(...)` count as
+  /-- REGION of the fixed finding F2 (no longer a trigger since /repo dfbc7ef; kept to measure how many
+      generated operations lie in the region the theorem gained, and for the regression statements):
+      a field at depth >= 3 (top-level field = depth 1; members of `.on(...)` count as
       children) carrying a non-None argument.  `d` = depth of the expression itself. -/
   def trigDeep (d : Nat) : Expr → Bool
     | .attr _ _ => false
